@@ -390,9 +390,6 @@ func Run(o *core.Options) int {
 	if !o.Thorough() {
 		r.Set("bound_note", fmt.Sprintf("quick runs every %d-th signature class of the family (thorough: all classes, 2 models per class, with |T|=3 on every 24th class; quick: |T|=3 on every 96th class)", stride))
 	}
-	if stride <= len(reps) {
-		x.sweep("main", main, ref.DefaultUniverse(), 2, 1, 0)
-	}
 	// nested set operators over one object (ref.FlatFamily), up to 4 tuples (6 in thorough)
 	{
 		kf := 4
@@ -403,6 +400,9 @@ func Run(o *core.Options) int {
 		r.Set("flat_family_models", len(flat))
 		r.Set("max_tuples_flat_sweep", kf)
 		x.sweep("flat", flat, ref.FlatUniverse(), kf, 1, 0)
+	}
+	if stride <= len(reps) {
+		x.sweep("main", main, ref.DefaultUniverse(), 2, 1, 0)
 	}
 	if k3stride > 0 {
 		k3 := every(reps, k3stride)
